@@ -62,10 +62,42 @@ func (c *Ctx) c17First() {
 			if _, isB := call.Call.Value.(*ssa.Builtin); isB {
 				return
 			}
-			// function value taken from listenerFuncs
-			if u, ok := call.Call.Value.(*ssa.UnOp); ok {
-				if ia, ok := u.X.(*ssa.IndexAddr); ok {
-					if f := eng.LoadedField(ia.X); f != nil && f.Name() == "listenerFuncs" {
+			// function value taken from an element of a slice field of the broker (the element
+			// itself, or a func-typed field of a registration record)
+			v := call.Call.Value
+			for i := 0; i < 4; i++ {
+				switch x := v.(type) {
+				case *ssa.UnOp:
+					if x.Op == token.MUL {
+						v = x.X
+						continue
+					}
+				case *ssa.FieldAddr:
+					v = x.X
+					continue
+				case *ssa.Field:
+					v = x.X
+					continue
+				}
+				break
+			}
+			// the range variable is a local copy of the element
+			if al, ok := v.(*ssa.Alloc); ok && al.Referrers() != nil {
+				var vals []ssa.Value
+				for _, ref := range *al.Referrers() {
+					if st, ok := ref.(*ssa.Store); ok && st.Addr == ssa.Value(al) {
+						vals = append(vals, st.Val)
+					}
+				}
+				if len(vals) == 1 {
+					if u, ok := vals[0].(*ssa.UnOp); ok && u.Op == token.MUL {
+						v = u.X
+					}
+				}
+			}
+			if ia, ok := v.(*ssa.IndexAddr); ok {
+				if f := eng.LoadedField(ia.X); f != nil {
+					if _, isSlice := f.Type().Underlying().(*types.Slice); isSlice {
 						calls = append(calls, call)
 					}
 				}
@@ -87,7 +119,7 @@ func (c *Ctx) c17First() {
 				// index increases by one from -1: rangeindex; order = slice order
 				rel, ok := eng.EdgeRel(h, 0)
 				if !ok || rel.Op != token.LSS {
-					probs = append(probs, "the loop is not a forward range over listenerFuncs")
+					probs = append(probs, "the loop is not a forward range over the listener slice")
 				}
 			}
 			var nnEdge *ssa.BasicBlock
